@@ -263,7 +263,13 @@ static void blk_gcm_wrap(void) { static uint8_t o[300], e[300], d[300];
 				const uint8_t *in = PT + 6000, *aad = PT + 1000; size_t n = 100, al = 5; uint8_t tag[16], et[16]; int r; char key[128]; mr_gcm(B, 1, iv, 16, aad, al, in, n, e, et, 16);
 				if (alg) { uint8_t ot[16]; long el = ref_cipher("AES-128-GCM", 1, 0, KEYS[k], iv, 16, aad, al, in, n, d, ot, 16); if (el != (long)n || memcmp(d, e, n) || memcmp(ot, et, 16)) vh_harness_error("mr_gcm disagrees with OpenSSL AES-GCM at a counter wrap (low word %08x)", LOW[w]); }
 				r = alg ? aes_gcm_encrypt(&ak, iv, 16, aad, al, in, n, o, 16, tag) : sm4_gcm_encrypt(&sk, iv, 16, aad, al, in, n, o, 16, tag); vh_eval(vh_mix(70000 + k * 100 + w * 2 + alg)); if (r != 1 || memcmp(o, e, n) || memcmp(tag, et, 16)) { snprintf(key, sizeof key, "C04:gcm-counter-wrap:%s_gcm_encrypt", alg ? "aes" : "sm4"); vh_viol(key, "\"j0_low_word\":\"%08x\",\"ret\":%d", LOW[w], r); }
-				r = alg ? aes_gcm_decrypt(&ak, iv, 16, aad, al, e, n, et, 16, d) : sm4_gcm_decrypt(&sk, iv, 16, aad, al, e, n, et, 16, d); vh_eval(vh_mix(71000 + k * 100 + w * 2 + alg)); if (r != 1 || memcmp(d, in, n)) { snprintf(key, sizeof key, "C04:gcm-counter-wrap:%s_gcm_decrypt", alg ? "aes" : "sm4"); vh_viol(key, "\"j0_low_word\":\"%08x\",\"ret\":%d", LOW[w], r); } } } }
+				r = alg ? aes_gcm_decrypt(&ak, iv, 16, aad, al, e, n, et, 16, d) : sm4_gcm_decrypt(&sk, iv, 16, aad, al, e, n, et, 16, d); vh_eval(vh_mix(71000 + k * 100 + w * 2 + alg)); if (r != 1 || memcmp(d, in, n)) { snprintf(key, sizeof key, "C04:gcm-counter-wrap:%s_gcm_decrypt", alg ? "aes" : "sm4"); vh_viol(key, "\"j0_low_word\":\"%08x\",\"ret\":%d", LOW[w], r); }
+				/* the streaming SM4-GCM interface at the same IVs, several chunkings: same bytes as the one-shot reference, both directions */
+				if (!alg) { static const size_t CH[] = { 100, 1, 15, 16, 17, 32, 33, 64 }; for (int ci = 0; ci < 8; ci++) for (int dir = 0; dir < 2; dir++) { SM4_GCM_CTX g; static uint8_t src[400], dst[600]; size_t sn, dn = 0, ol = 0; int bad = 0;
+					if (dir == 0) { memcpy(src, in, n); sn = n; r = sm4_gcm_encrypt_init(&g, KEYS[k], 16, iv, 16, aad, al, 16); } else { memcpy(src, e, n); memcpy(src + n, et, 16); sn = n + 16; r = sm4_gcm_decrypt_init(&g, KEYS[k], 16, iv, 16, aad, al, 16); }
+					if (r != 1) bad = 1; for (size_t off = 0; !bad && off < sn; ) { size_t c = CH[ci] < sn - off ? CH[ci] : sn - off; ol = 0; r = dir ? sm4_gcm_decrypt_update(&g, src + off, c, dst + dn, &ol) : sm4_gcm_encrypt_update(&g, src + off, c, dst + dn, &ol); if (r != 1) bad = 1; dn += ol; off += c; }
+					if (!bad) { ol = 0; r = dir ? sm4_gcm_decrypt_finish(&g, dst + dn, &ol) : sm4_gcm_encrypt_finish(&g, dst + dn, &ol); if (r != 1) bad = 1; dn += ol; } vh_eval(vh_mix(72000 + k * 1000 + w * 20 + ci * 2 + dir));
+					if (dir == 0 ? (bad || dn != n + 16 || memcmp(dst, e, n) || memcmp(dst + n, et, 16)) : (bad || dn != n || memcmp(dst, in, n))) { snprintf(key, sizeof key, "C04:gcm-counter-wrap:sm4_gcm_%s-streaming", dir ? "decrypt" : "encrypt"); vh_viol(key, "\"j0_low_word\":\"%08x\",\"chunk\":%zu,\"failed\":%d,\"outlen\":%zu", LOW[w], CH[ci], bad, dn); } } } } } }
 }
 static void blk_gcm_main(void);
 static void blk_gcm_tail(void);
